@@ -223,8 +223,10 @@ func GenRaw(r *rand.Rand, tier string, res int64, counter bool) []RawS {
 	case k < 8 && res != downsample.ResLevel2:
 		n = 720 + r.Intn(500) // enough for more than one chunk at 5m
 	}
-	if tier == "thorough" && r.Intn(40) == 0 {
-		n = 8500 + r.Intn(3000) // more than one chunk at 1h
+	if tier == "thorough" && r.Intn(60) == 0 && res == downsample.ResLevel2 {
+		// more than one chunk at 1h; only at 1h so that the number of output rows stays
+		// small (the predicates evaluated in Coq are quadratic in rows x samples)
+		n = 8500 + r.Intn(1000)
 	}
 	base := common.Pick(r, int64(0), 1, 299999, 300000, 1600000000000, 1600000000123, 3599999)
 	step := common.Pick(r, int64(15000), 30000, 60000, 60000, 10000, 1000)
